@@ -129,6 +129,18 @@ class Prog:
         self.cls_names = [v["n"] for v in spec["validators"]]
         self.vby = {v["n"]: v for v in spec["validators"]}
         self.sig = json.dumps(spec, sort_keys=True)
+        self.counts = Counter()
+
+    def count(self, key, n=1):
+        self.counts[key] += n
+
+    def flush(self, env):
+        n = self.counts["cases"]
+        self.counts["step_counted_calls"] += n
+        for fl in self.flags:
+            self.counts["cases_" + fl] += n
+        env.counters.update(self.counts)
+        self.counts.clear()
 
     def close(self):
         self.loaded.unload()
@@ -201,6 +213,7 @@ def check_case(env, prog, case, label, use_function=False):
     spec = prog.spec
     d, out, log, ctor = observe(prog, case, use_function)
     nviol = [0]
+    C = prog.count
     base_wit = {"spec": spec, "case": case, "order_mode": prog.order_mode, "label": label, "datum": d, "source": prog.loaded.source,
                 "options": {"aliaser": spec.get("aliaser"), "validators_arg": bool(spec.get("arg_validator")), "via": "deserialize" if use_function else "deserialization_method"}}
 
@@ -208,14 +221,11 @@ def check_case(env, prog, case, label, use_function=False):
         nviol[0] += 1
         env.violation(features, {**base_wit, "observed": {"outcome": out.brief(), "log": log, "ctor": ctor}, **more})
 
-    env.case(prog.sig, json.dumps(case, sort_keys=True))
-    env.count("cases")
-    env.count("step_counted_calls")
-    for fl in prog.flags:
-        env.count("cases_" + fl)
+    env.case(prog.sig, "".join(case["status"].values()), case["fail"], case.get("extra"))
+    C("cases")
     if case.get("extra"):
-        env.count("cases_extra_key")
-    env.count("outcome:" + out.kind)
+        C("cases_extra_key")
+    C("outcome:" + out.kind)
 
     post_init_fields = {f["n"] for f in spec["fields"] if f.get("post_init")}
     P = predict(spec, case, prog.order_mode, True)
@@ -224,7 +234,7 @@ def check_case(env, prog, case, label, use_function=False):
     if P.structural and post_init_fields:
         P2 = predict(spec, case, prog.order_mode, False)
         if [n for n, _ in P2.class_runs] != [n for n, _ in P.class_runs]:
-            env.count("abstain_post_init_gating")
+            C("abstain_post_init_gating")
             if Counter(obs_names) == Counter(n for n, _ in P2.class_runs):
                 P = P2
     extra_kind = None
@@ -241,7 +251,7 @@ def check_case(env, prog, case, label, use_function=False):
         else:
             viol({"kind": "exception", "exc": out.exc, "aliased_invalid_field": aliased_bad}, expected=P.brief(), message=out.msg, site=out.site,
                  initvar="initvar" in prog.flags, extra_key=extra_kind)
-        env.count("ctor_check_skipped_exception")
+        C("ctor_check_skipped_exception")
         return nviol[0]
 
     # ---- 2. which validators ran (function validators attached to field values)
@@ -258,7 +268,7 @@ def check_case(env, prog, case, label, use_function=False):
         if n not in obs_field:
             run_ok = False
             viol({"kind": "not-run-although-runnable", "attach": "field-value"}, validator=n, expected=P.brief())
-    env.count("field_validator_ran", sum(obs_field.values()))
+    C("field_validator_ran", sum(obs_field.values()))
     for n, r in log:
         if n.startswith(("fv_", "nt_")) and r != (("x", VALID[n.split("_")[1]]),):
             viol({"kind": "read-value", "attach": "field-value"}, validator=n, read=r)
@@ -282,22 +292,22 @@ def check_case(env, prog, case, label, use_function=False):
             # external names under which structural errors are reported (bad fields, unexpected key): does one equal a dependency *name*?
             err_keys = {ext_name(spec, b) for b in P.bad} | ({case["extra"]} if case.get("extra") else set())
             viol({"kind": "not-run-although-runnable", "attach": "class", "structural_errors": P.structural,
-                  "dep_name_is_error_key": bool(deps_of(v) & err_keys),
+                  "dep_name_is_error_key": bool(deps_of(v) & err_keys), "aliased_invalid_field": aliased_bad,
                   "earlier_failure": bool(set(case["fail"]) & set(exp_names[:exp_names.index(n)]))}, validator=n, expected=P.brief())
         if ec[n]:
-            env.count("class_validator_ran")
-            env.count("mock_path_runs" if P.structural else "real_path_runs")
+            C("class_validator_ran")
+            C("mock_path_runs" if P.structural else "real_path_runs")
             if n in case["fail"]:
-                env.count("validator_failed")
+                C("validator_failed")
         else:
-            env.count("skipped:" + P.why_skipped[n])
+            C("skipped:" + P.why_skipped[n])
     if any(w == "discarded-dep" for w in P.why_skipped.values()):
-        env.count("discard_effective")
+        C("discard_effective")
     # unregistered function validator passed as `validators=` argument
     av = spec.get("arg_validator")
     if av:
         ran = sum(1 for n, _ in log if n == av["n"])
-        env.count("arg_validator_cases")
+        C("arg_validator_cases")
         if ran > 1:
             run_ok = False
             viol({"kind": "ran-twice", "attach": "validators-arg"}, expected=P.brief())
@@ -307,35 +317,35 @@ def check_case(env, prog, case, label, use_function=False):
                 viol({"kind": "ran-although-not-runnable", "attach": "validators-" + av.get("via", "arg"), "reason": "invalid-dep"}, expected=P.brief())
             else:
                 # every attribute it reads is defaulted: "not run on default values" is documented for class validators only
-                env.count("abstain_arg_validator_all_default")
+                C("abstain_arg_validator_all_default")
                 P.arg_validator_runs = True
         elif P.arg_validator_runs and not ran:
             if P.errors:
                 # unregistered function validator while other errors exist: the statement is about class validators; run or not both accepted
-                env.count("abstain_arg_validator_with_other_errors")
+                C("abstain_arg_validator_with_other_errors")
                 P.arg_validator_runs = False
             else:
                 run_ok = False
                 viol({"kind": "not-run-although-runnable", "attach": "validators-" + av.get("via", "arg")}, expected=P.brief())
         elif ran:
-            env.count("arg_validator_ran")
+            C("arg_validator_ran")
 
     if not run_ok:
-        env.count("derived_checks_skipped")
+        C("derived_checks_skipped")
     else:
         # ---- 4. order
-        env.count("order_checked")
+        C("order_checked")
         if obs_names != exp_names:
             viol({"kind": "order", "inheritance": "inherited" in prog.flags}, expected=P.brief())
         # ---- 5. values read
         exp_reads = dict(P.class_runs)
         for n, r in obs_cls:
-            env.count("values_compared")
+            C("values_compared")
             er = exp_reads[n]
             if len(r) != len(er) or any(a[0] != b[0] or (b[1] is not None and a[1] != b[1]) for a, b in zip(r, er)):
                 viol({"kind": "read-value", "attach": "class", "structural_errors": P.structural}, validator=n, read=r, expected_read=er)
             if any(b[1] is None for b in er):
-                env.count("abstain_post_init_value")
+                C("abstain_post_init_value")
         # ---- 6. errors merged into one ValidationError
         exp_errors = Counter(P.errors)
         if av and P.arg_validator_runs and av["n"] in case["fail"]:
@@ -348,11 +358,11 @@ def check_case(env, prog, case, label, use_function=False):
             else:
                 val = out.value
                 got = {f["n"]: getattr(val, f["n"], "<missing>") for f in spec["fields"] if not is_initvar(f)}
-                env.count("result_values_compared")
+                C("result_values_compared")
                 if type(val) is not prog.loaded.T or got != P.value:
                     viol({"kind": "result-value"}, got=got, expected_value=P.value)
         else:
-            env.count("errors_compared")
+            C("errors_compared")
             obs_errors = Counter(norm_errors(out.errors))
             if not exp_errors:
                 viol({"kind": "rejected-without-cause"}, expected=P.brief())
@@ -380,7 +390,7 @@ def check_case(env, prog, case, label, use_function=False):
                      missing=[[list(p), m] for p, m in missing.elements()], extra=[[list(p), m] for p, m in extra.elements()], expected=P.brief())
 
     # ---- 7. constructed only when there is no error at all
-    env.count("ctor_checks")
+    C("ctor_checks")
     exp_ctor = P.ctor
     if av and P.arg_validator_runs and av["n"] in case["fail"]:
         exp_ctor = 0
@@ -395,7 +405,7 @@ def check_case(env, prog, case, label, use_function=False):
         else:
             viol({"kind": "constructed-multiple", "count": min(ctor, 3)}, expected=P.brief())
     elif run_ok and out.kind == "verr" and not P.structural and P.errors:
-        env.count("validator_rejection_without_construction")
+        C("validator_rejection_without_construction")
     return nviol[0]
 
 
@@ -447,8 +457,8 @@ def run_program(env, spec, rng, label, n_cases=None, extras=True):
         if len(env.samples) < 8:
             env.sample({"load_failed": str(e)[:300], "spec": spec})
         return
+    prog.flags = spec_flags(spec)
     try:
-        prog.flags = spec_flags(spec)
         if prog.method is None:
             env.violation({"kind": "compile", "exc": prog.compile.exc or "ValidationError"}, {"spec": spec, "source": prog.loaded.source, "outcome": prog.compile.brief()})
             return
@@ -462,6 +472,7 @@ def run_program(env, spec, rng, label, n_cases=None, extras=True):
         if len(env.samples) < 4 and rng.random() < 0.02:
             env.sample({"label": label, "source": prog.loaded.source})
     finally:
+        prog.flush(env)
         prog.close()
 
 
@@ -600,12 +611,13 @@ def replay(env, rep):
         return
     harness.reset_all()
     prog = Prog(w["spec"], env)
+    prog.flags = spec_flags(w["spec"])
     try:
-        prog.flags = spec_flags(w["spec"])
         if prog.method is None:
             env.violation({"kind": "compile", "exc": prog.compile.exc or "ValidationError"}, {"spec": w["spec"]})
             return
         detect_order(prog, env)
         check_case(env, prog, w["case"], "replay", use_function=w.get("options", {}).get("via") == "deserialize")
     finally:
+        prog.flush(env)
         prog.close()
